@@ -177,8 +177,8 @@ fn execute(trie: &mut Trie, cfg: &Cfg, ops: &[(String, i64)], st: &mut Stats) {
             st.inapplicable += 1; // value not representable in this type
             return;
         }
-        if op == "deallocate" && !(used.contains(&v) && cfg.lo <= v && v <= cfg.hi) {
-            st.inapplicable += 1; // contract: release only values handed out and not yet released
+        if op == "deallocate" && !(cfg.lo <= v && v <= cfg.hi) {
+            st.inapplicable += 1; // contract (asserted by the library): release only values of the range
             return;
         }
         st.calls += 1;
@@ -294,9 +294,18 @@ fn random_schedule(rng: &mut Rng, cfg: &Cfg, steps: usize) -> Vec<(String, i64)>
                 ops.push(("allocate".to_string(), 0));
                 used.push(cfg.lo);
             } else {
-                let i = rng.below(used.len() as u64) as usize;
-                let v = used.swap_remove(i);
-                ops.push(("deallocate".to_string(), v));
+                if rng.below(5) == 0 {
+                    // a value of the range that may well be free already (releasing it must change nothing)
+                    let v = near(rng, &used);
+                    if v >= cfg.lo && v <= cfg.hi {
+                        used.retain(|x| *x != v);
+                        ops.push(("deallocate".to_string(), v));
+                    }
+                } else {
+                    let i = rng.below(used.len() as u64) as usize;
+                    let v = used.swap_remove(i);
+                    ops.push(("deallocate".to_string(), v));
+                }
             }
         } else if c < 90 {
             ops.push(("is_used".to_string(), near(rng, &used)));
